@@ -15,6 +15,7 @@
 #include <covfie/core/field.hpp>
 #include <covfie/core/field_view.hpp>
 #include <covfie/core/parameter_pack.hpp>
+#include <limits>
 #include <tuple>
 using namespace covfie;
 
@@ -260,6 +261,34 @@ template <int K> static void rebuild_h()
         vf_assert(vf::same(r, f.backend()), 3);
     }
     vf_observe_u64(K);
+}
+
+// the array backend with a non-default index type: the size it is constructed with is the size it reports and allocates,
+// also when that size does not fit the index type (sizes around 2^8 and 2^16; the configuration is an nd_size of size_t)
+template <class I> static void array_index_h()
+{
+    using B = backend::array<vector::float1, I>;
+    constexpr size_t cand[8] = {0, 1, 255, 256, 257, 300, 65536, 65537};
+    size_t n = cand[vf_nondet_range(0, sizeof(I) == 1 ? 5 : 7)];
+    size_t live0 = vf_heap_live();
+    {
+        field<B> f(make_parameter_pack(typename B::configuration_t{n}));
+        vf_assert(f.backend().get_configuration()[0] == n, 1);
+        vf_assert(f.backend().m_size == n, 2);
+        typename B::owning_data_t direct(n);
+        vf_assert(direct.get_configuration()[0] == n, 3);
+        typename B::owning_data_t fromcfg(typename B::configuration_t{n});
+        vf_assert(fromcfg.get_configuration()[0] == n, 3);
+        if (n > 0) {
+            // the last cell the index type can address is inside the storage
+            size_t last = n - 1 > static_cast<size_t>(std::numeric_limits<I>::max()) ? static_cast<size_t>(std::numeric_limits<I>::max()) : n - 1;
+            typename field<B>::view_t v(f);
+            v.at(static_cast<I>(last))[0] = 1.5f;
+            vf_assert(v.at(static_cast<I>(last))[0] == 1.5f, 4);
+        }
+    }
+    vf_assert(vf_heap_live() == live0, 5);
+    vf_observe_u64(n);
 }
 
 extern "C" void vf_main()
